@@ -71,6 +71,9 @@ def install():
                 st.event("entry-created", static[0], to_val(args[0]), a, dict(val.meta.get("items", {})))
                 # a shared-memory entry holds the collection's own container: remember which node it belongs to
                 args = [args[0], Z(VRef(a), "dict", {"entry_of": (static[0], to_val(args[0]))})]
+        if (static is not None and static[1] == "_buffer") or ref.meta.get("entry_of") is not None:
+            # an access to the shared buffer state (the class's _buffer dict or one of its entries)
+            st.event("buffer-access", (static or ref.meta.get("entry_of"))[0], opname)
         outs = base_cell_op(self, st, ref, kind, opname, args)
         if static is not None and opname in ("getitem",):
             fixed = []
